@@ -136,6 +136,12 @@ impl RecvStream {
                     // but that increased complexity is probably not justified, as an application
                     // that is expecting a reset is not likely to receive large amounts of data.
                     state.readable.insert(self.stream, cx.waker().clone());
+                    #[cfg(compio_verif)]
+                    state.verif_snap(
+                        crate::verif::REG,
+                        crate::verif::T_READABLE,
+                        crate::verif::stream_id(self.stream),
+                    );
                     Poll::Pending
                 }
             }
@@ -199,6 +205,12 @@ impl RecvStream {
                         return Poll::Ready(Err(error.clone().into()));
                     }
                     state.readable.insert(self.stream, cx.waker().clone());
+                    #[cfg(compio_verif)]
+                    state.verif_snap(
+                        crate::verif::REG,
+                        crate::verif::T_READABLE,
+                        crate::verif::stream_id(self.stream),
+                    );
                     Poll::Pending
                 }
             },
@@ -397,6 +409,12 @@ impl Drop for RecvStream {
 
         // clean up any previously registered wakers
         state.readable.remove(&self.stream);
+        #[cfg(compio_verif)]
+        state.verif_snap(
+            crate::verif::DROP_RECV,
+            0,
+            crate::verif::stream_id(self.stream),
+        );
 
         if state.error.is_some() || (self.is_0rtt && !state.check_0rtt()) {
             return;
